@@ -9,30 +9,20 @@ import PiqpModel.Checkers
 namespace Piqp.C09
 
 variable {K : Type}
-variable [Add K] [Sub K] [Mul K] [Div K] [Neg K] [Zero K] [One K] [LT K] [DecidableLT K] [LE K] [DecidableLE K]
-variable [NatCast K] [BEq K]
-variable {n p m : Nat}
+variable [Add K] [Sub K] [Mul K] [Div K] [Neg K] [Zero K] [One K] [LT K] [DecidableLT K] [LE K] [DecidableLE K] [BEq K]
+variable {σ : Type}
 
-/-- whenever the loop head returns a status, `info.status` is that status -/
-theorem phaseA_status_eq_info (e : Env K n p m) (iter0 : Bool) (w : Work K n p m) (info : Info K) (s : Status)
-    (h : (phaseA e iter0 w info).2.2 = some s) : (phaseA e iter0 w info).2.1.status = s := by
-  unfold phaseA at h ⊢
-  by_cases hc : termTest e.st (headInfo e iter0 w info).2 = true
-  · simp only [hc, ↓reduceIte] at h ⊢
-    simpa using h
-  · simp only [hc, Bool.false_eq_true, ↓reduceIte] at h ⊢
-    split
-    · rename_i h1
-      simp only [h1, ↓reduceIte] at h
-      simpa using h
-    · rename_i h1
-      simp only [h1, Bool.false_eq_true, ↓reduceIte] at h
-      split
-      · rename_i h2
-        simp only [h2, ↓reduceIte] at h
-        simpa using h
-      · rename_i h2
-        simp only [h2, Bool.false_eq_true, ↓reduceIte] at h
-        simp at h
+omit [Neg K] [LE K] [DecidableLE K] in
+/-- `info.status` equals the returned status, for every numeric back end and every run of the main loop -/
+theorem status_eq_info_status (st : Settings K) (cs : Consts K) (ops : LoopOps K σ) (c : Ctrl) (s : σ) (info : Info K) :
+    (loopG st cs ops c s info).1.2.2.status = (loopG st cs ops c s info).2 := by
+  fun_induction loopG st cs ops c s info <;> simp_all
+
+omit [Neg K] [LE K] [DecidableLE K] in
+/-- the iteration counter never exceeds `max_iter` -/
+theorem iter_le_max_iter (st : Settings K) (cs : Consts K) (ops : LoopOps K σ) (c : Ctrl) (s : σ) (info : Info K)
+    (h : (c.iter : Int) ≤ st.maxIter) :
+    ((loopG st cs ops c s info).1.1.iter : Int) ≤ st.maxIter := by
+  fun_induction loopG st cs ops c s info <;> simp_all <;> omega
 
 end Piqp.C09
